@@ -34,7 +34,9 @@ MANIFEST = {
             "removal. Unbounded theorems: parse_delimited (for every schema of the modelled column types and every LF or uniformly "
             "CRLF file with one field per column: offset table + CR rule + typed extraction = reference parser, one entry per line), "
             "fieldTable_spec, digitMatrix_value (row independence), intColumn_spec (both code paths), typedColumn_spec, idColumn_spec, "
-            "listColumn_spec, optIntColumn_spec, crAdjust_crlf, kline_roles, sam_extra (rest of line = remaining fields joined by TAB), "
+            "listColumn_spec, optIntColumn_spec, crAdjust_crlf, kline_roles, fasta_wrapped_join (records with any number of lines, none "
+            "included), commentTable_spec (comment lines anywhere, with or without TABs, never become entries), sam_extra / "
+            "sam_rows_spec (whole buffer: first 11 fields + rest of line = remaining fields joined by TAB), "
             "info_subfields_spec / info_lookup_partial, genotype_triplets (all 32 genotypes, int8 wrap included), fasta_seqLens, vcf_pos; "
             "refutations of the four shipped rules that were repaired. Per-format schemas, comment characters, k-line layout and "
             "coordinate shifts are re-extracted from the running package into Gen/C02.lean every run and checked against the "
